@@ -235,6 +235,10 @@ func (n *Node) StartAgent(jivaBin string, portLo, portHi int) error {
 	cmd.SysProcAttr = &syscall.SysProcAttr{Pdeathsig: syscall.SIGKILL, Setpgid: true}
 	cmd.Stdout = nil
 	cmd.Stderr = nil
+	if lf, err := os.OpenFile(filepath.Join(filepath.Dir(n.Dir), n.Name+"-agent.log"), os.O_CREATE|os.O_APPEND|os.O_WRONLY, 0644); err == nil {
+		cmd.Stdout, cmd.Stderr = lf, lf
+		defer lf.Close()
+	}
 	if err := cmd.Start(); err != nil {
 		return err
 	}
@@ -348,6 +352,46 @@ func (n *Node) WaitQuiesced() {
 	if d := 3200*time.Millisecond - time.Since(ls); d > 0 {
 		time.Sleep(d)
 	}
+}
+
+// Recreate replaces the node by a brand-new empty replica on the same address
+// (a replaced replica: new volume, same pod address). The node must be closed.
+func (n *Node) Recreate(size int64) error {
+	n.Shutdown()
+	os.RemoveAll(n.Dir)
+	if err := os.MkdirAll(n.Dir, 0700); err != nil {
+		return err
+	}
+	n.mu.Lock()
+	n.stopped = false
+	n.next = map[string][]Outcome{}
+	n.restFail = map[string]int{}
+	n.pingFail = false
+	n.handleEnd = nil
+	n.Log = nil
+	n.mu.Unlock()
+	n.S = replica.NewServer(n.IP+":9502", n.Dir, 512, "")
+	if err := n.S.Create(size); err != nil {
+		return err
+	}
+	if err := n.S.Open(); err != nil {
+		return err
+	}
+	n.fixDrainer()
+	if err := n.S.Replica().SetCloneStatus("NA"); err != nil {
+		return err
+	}
+	if err := n.S.Close(); err != nil {
+		return err
+	}
+	var err error
+	for i := 0; i < 50; i++ {
+		if err = n.listen(); err == nil {
+			return nil
+		}
+		time.Sleep(20 * time.Millisecond)
+	}
+	return err
 }
 
 // Restart2Abandon = kill -9 at a quiescent point and restart: the listeners
